@@ -387,6 +387,9 @@ def resolve_globs(glob_path: str, root_path: str = None) -> list[str]:
     True
     """
     if not os.path.isabs(glob_path) and root_path:
+        # "." names the root itself, which pathlib does not accept as a pattern
+        if os.path.normpath(glob_path) == ".":
+            return [str(Path(root_path).resolve())]
         return [str(p.resolve()) for p in Path(root_path).resolve().glob(glob_path)]
     p = Path(glob_path).resolve()
     root = p.anchor  # drive letter + root path
